@@ -76,6 +76,7 @@
 (define-fun iabs ((x Int)) Int (ite (>= x 0) x (- x)))
 (declare-fun isHex (BSeq) Bool)
 (assert (forall ((s BSeq)) (! (isHex (hex s)) :pattern ((hex s)))))
+(assert (isHex bempty))
 ; extensional equality, used for every comparison of byte sequences written in code or contracts
 (declare-fun seqeq (BSeq BSeq) Bool)
 (declare-fun bdiff (BSeq BSeq) Int)
@@ -188,6 +189,24 @@
 (assert (forall ((s BSeq)) (! (>= (llen (splitAt s)) 1) :pattern ((splitAt s)))))
 (assert (forall ((f BSeq) (l BList) (n Int)) (! (=> (and (noAt f) (>= n 0)) (and (= (llen (splitAt (wire f l n))) (+ n 1)) (= (lnth (splitAt (wire f l n)) 0) f))) :pattern ((splitAt (wire f l n))))))
 (assert (forall ((f BSeq) (l BList) (n Int) (j Int)) (! (=> (and (noAt f) (<= 1 j) (<= j n)) (= (lnth (splitAt (wire f l n)) j) (hex (lnth l (- j 1))))) :pattern ((lnth (splitAt (wire f l n)) j)))))
+; strings.Split under concatenation at the end of the string (elementary, true in the standard model):
+; the empty string splits into one empty token; appending the separator opens a new empty last token; appending a
+; string without separator extends the last token. A string without '@' has no byte 64.
+(assert (and (= (llen (splitAt bempty)) 1) (= (lnth (splitAt bempty) 0) bempty)))
+(assert (forall ((s BSeq) (k Int)) (! (=> (and (noAt s) (<= 0 k) (< k (blen s))) (not (= (bat s k) 64))) :pattern ((noAt s) (bat s k)))))
+(assert (forall ((s BSeq) (a BSeq)) (! (=> (and (= (blen a) 1) (= (bat a 0) 64))
+    (= (llen (splitAt (bcat s a))) (+ (llen (splitAt s)) 1)))
+  :pattern ((splitAt (bcat s a))))))
+(assert (forall ((s BSeq) (a BSeq) (j Int)) (! (=> (and (= (blen a) 1) (= (bat a 0) 64))
+    (and (=> (and (<= 0 j) (< j (llen (splitAt s)))) (= (lnth (splitAt (bcat s a)) j) (lnth (splitAt s) j)))
+         (=> (= j (llen (splitAt s))) (= (lnth (splitAt (bcat s a)) j) bempty))))
+  :pattern ((lnth (splitAt (bcat s a)) j)))))
+(assert (forall ((s BSeq) (h BSeq)) (! (=> (noAt h) (= (llen (splitAt (bcat s h))) (llen (splitAt s))))
+  :pattern ((splitAt (bcat s h)) (noAt h)))))
+(assert (forall ((s BSeq) (h BSeq) (j Int)) (! (=> (noAt h)
+    (and (=> (and (<= 0 j) (< j (- (llen (splitAt s)) 1))) (= (lnth (splitAt (bcat s h)) j) (lnth (splitAt s) j)))
+         (=> (= j (- (llen (splitAt s)) 1)) (= (lnth (splitAt (bcat s h)) j) (bcat (lnth (splitAt s) j) h)))))
+  :pattern ((lnth (splitAt (bcat s h)) j) (noAt h)))))
 ; ghost constants for lemma statements (existentially bound in the lemma's precondition)
 (declare-const ghostF BSeq)
 (declare-const ghostL BList)
